@@ -829,6 +829,25 @@ func (c *evalCtx) call(n *Node) SV {
 		v := c.eval(n.Args[1])
 		c.env = saved
 		return v
+	case "$hookAll":
+		// $hookAll("Method", bridge, cfg): every bridge-hook notification sent on this path (for a loop: in this iteration)
+		// was Method(ctx, bridge, cfg)
+		he, ok := c.env.(interface {
+			HookCallList() []HookCall
+		})
+		if !ok || len(n.Args) != 3 || n.Args[0].Kind != "str" {
+			panic("$hookAll(\"Method\", bridgeId, config)")
+		}
+		b, cfg := c.eval(n.Args[1]), c.eval(n.Args[2])
+		conj := []string{"true"}
+		for _, hc := range he.HookCallList() {
+			if hc.Name != n.Args[0].Name {
+				conj = append(conj, "false")
+				continue
+			}
+			conj = append(conj, eq(hc.Bridge, b.T), eq(hc.Cfg.T, cfg.T))
+		}
+		return SV{T: and(conj...), Sort: "Bool"}
 	case "$called", "$arg", "$ret":
 		ce, ok := c.env.(interface {
 			CallInfo(kind, fn string, i int) (SV, bool)
